@@ -82,6 +82,27 @@ class PROP(Prop):
             for parts in mb.chunkings(fr, rng, 2) + ([list(p) for p in mb.all_compositions(fr)] if len(fr) <= 8 and slave < 8 else []):
                 cs.append(Case(cligen.cli_line("rtu", slave, [cligen.call_op(req, R=mb.rscript(parts))]),
                                {"k": "cli_clean", "want": "OK:" + mb.show_rsp(mb.pad_rsp(rsp)), "nparts": len(parts), "nframes": 1}))
+        # every KIND of reply the response length table knows -- the serial-line codes (0x07, 0x0B, 0x0C, 0x18 with its 16-bit count)
+        # and the exception form of every function code 0x01..0x2B (0x81..0xAB) included -- cut in two at EVERY offset and byte by byte
+        kinds = [(("CU", 0x18, b"\x12\x34"), ("CU", 0x18, bytes([0, 4, 0xAA, 0xBB, 0xCC, 0xDD]))), (("CU", 0x18, b"\x00\x01"), ("CU", 0x18, bytes([0, 0]))),
+                 (("CU", 0x07, b""), ("CU", 0x07, b"\x55")), (("CU", 0x0C, b""), ("CU", 0x0C, bytes([3, 1, 2, 3]))), (("CU", 0x0B, b""), ("CU", 0x0B, bytes([0, 0, 0, 9]))),
+                 (("RSI",), ("RSI", 7, True, b"xy")), (("MWR", 1, 2, 3), ("MWR", 1, 2, 3)), (("WMC", 1, [True] * 9), ("WMC", 1, 9)), (("WMR", 1, [5, 6]), ("WMR", 1, 2)),
+                 (("RWMR", 1, 2, 3, [4]), ("RWMR", [8, 9]))]
+        for req, rsp in kinds:
+            slave = rng.randrange(1, 248)
+            fr = mb.rtu_frame(slave, mb.spec_rsp_pdu(rsp))
+            for parts in [[fr]] + [[fr[:i], fr[i:]] for i in range(1, len(fr))] + [[fr[i:i + 1] for i in range(len(fr))]]:
+                cs.append(Case(cligen.cli_line("rtu", slave, [cligen.call_op(req, R=mb.rscript(parts))]),
+                               {"k": "cli_clean", "want": "OK:" + mb.show_rsp(mb.pad_rsp(rsp)), "nparts": len(parts), "nframes": 1}))
+        for fc in range(0x01, 0x2C):
+            slave, code = rng.randrange(1, 248), rng.randrange(1, 12)
+            named = {1: ("RC", 1, 1), 2: ("RDI", 1, 1), 3: ("RHR", 1, 1), 4: ("RIR", 1, 1), 5: ("WSC", 1, True), 6: ("WSR", 1, 2), 0x0F: ("WMC", 1, [True]),
+                     0x10: ("WMR", 1, [2]), 0x11: ("RSI",), 0x16: ("MWR", 1, 2, 3), 0x17: ("RWMR", 1, 1, 2, [3])}
+            req = named.get(fc, ("CU", fc, b"\x00"))
+            fr = mb.rtu_frame(slave, bytes([fc | 0x80, code]))
+            for parts in [[fr], [fr[:2], fr[2:]], [fr[:3], fr[3:]], [fr[i:i + 1] for i in range(len(fr))]]:
+                cs.append(Case(cligen.cli_line("rtu", slave, [cligen.call_op(req, R=mb.rscript(parts))]),
+                               {"k": "cli_clean", "want": "EX:%d" % code, "nparts": len(parts), "nframes": 1}))
         # noise then frame
         for nl in range(0, 41):
             for rep in range(6 if tier == "quick" else 40):
